@@ -3,6 +3,7 @@ package checks
 import (
 	"crypto/sha1"
 	"encoding/json"
+	"sort"
 
 	cid "github.com/ipfs/go-cid"
 	ds "github.com/ipfs/go-datastore"
@@ -32,3 +33,5 @@ func mustCid(s string) cid.Cid {
 	}
 	return c
 }
+
+func sortStrings(s []string) { sort.Strings(s) }
